@@ -135,6 +135,7 @@ def decOut (j : Json) : E PRes := do
   match a.toList with
   | [.str "v", v] => return .val (← decJ v)
   | [.str "x", .str cls] => return .raise (.user cls)
+  | [.str "trav"] => return .val (.bool true)        -- a traverser object: truthy whatever it would yield
   | [.str "b", .str cls] => return .raise (.user cls)   -- a value whose truth test raises: raises where it is tested
   | _ => jErr "bad out" j
 
